@@ -13,7 +13,7 @@ TEXT = ("matcher_exact (the derivative matcher decides the language of ANY expre
         "and each injected defect must be named in the diagnostics. The custom YAML unmarshalers are modelled too (Model/Decode.lean): tag_shapes, call_shapes, scope_keywords (keyword table regenerated from input_scope.go) and shapes_roundtrip are theorems, tied by decoding generated node trees on both sides; getters_unique: an accepted input has pairwise distinct live getters. The composite expressions are theorems too: for every string the regenerated import, function/constructor (validator and compiler copies), type, value, decorator-tag and @service / !tagged / !value expressions accept exactly the documented form (import_language, goFunc_language, serviceType_language, serviceValue_language, decoratorTag_language, argument_languages).")
 TECHNIQUE = "Lean 4 theorems (Brzozowski-derivative matcher correctness, language = recogniser for the name grammars, exactness of validators) + exhaustive bounded string comparison (RE2 vs model vs hand-written recognisers) + defect-subset correspondence"
 LEAN_PROPS = ["C11", "Pins"]
-TRUSTED = ["regexp (RE2) agrees with Re.Lang / leftmost-first captures on the extracted patterns: checked on every enumerated string", "composite forms: recogniser = language only up to the enumerated length (test, not theorem)"]
+TRUSTED = ["regexp (RE2) agrees with Re.Lang / leftmost-first captures on the extracted patterns: checked on every enumerated string", "the composite forms (import, Go function, service type, service value, decorator tag, argument forms) are language theorems over ALL strings; the bounded enumeration is what ties Re.accepts to the real RE2 engine"]
 ASSUMPTIONS = ["documented grammar = docs/*.md + regex/consts.go at the pinned commit (DESIGN §8)"]
 
 ALPHA = ["a", "B", "1", ".", "-", "_", "/", '"', "*", "&", "{", "}", " ", "@", "!"]
